@@ -13,7 +13,7 @@ CLAIMS = {
         "Decides necessary structural clauses for all 30 exported pool strategies and their helpers: the batch size every query uses is the clipped "
         "value returned by the validator (and the validator clips); arrays scattered through the candidate mapping are NaN-filled (only candidates carry numbers); "
         "in each of the 15 sequential selection loops the operand of the selection depends on earlier picks (loop-carried) and the masked picks are the returned picks; "
-        "the exclusion is an explicit mechanism that lies on every path to the selection, is not overwritten before it, and - where a helper sees only the latest pick - is carried from the previous row by a must value-flow; positions selected over a shrunk or sub-sampled pool are translated back; no local is read unbound on any feasible (branch-correlated) path; multi-element index draws are without replacement. "
+        "the exclusion is an explicit mechanism that lies on every path to the selection, is not overwritten before it, and - where a helper sees only the latest pick - is carried from the previous row by a must value-flow; positions selected over a shrunk or sub-sampled pool are translated back; reductions over NaN-marked utilities are NaN-aware, constant arrays over all samples never serve as utilities, the de-duplicated candidate indices are the ones used; no local is read unbound on any feasible (branch-correlated) path; multi-element index draws are without replacement. "
         "Not decided: that custom loops fill all slots, numerical termination, dtype of the result.",
         "Dependence is flow-insensitive within a loop body (necessary condition); 6 infeasible definite-assignment residuals are listed one symbol at a time in the checker.",
         "DESIGN.md section 3 C01",
@@ -21,7 +21,7 @@ CLAIMS = {
     "C02": (
         "statement-order (structural dominance) and dependence analysis of selection loops; NaN-discipline of scatter targets",
         "Decides: in every selection loop the NaN mask of the current pick is applied only after the returned row was snapshotted (or to an array that is not returned); "
-        "a mask of earlier picks on the returned row is matched by an exclusion in the operand the selection reads; utilities scattered through the mapping are NaN elsewhere; the exclusion reaches the selection on every path and zero-mass masks are only scaled before a draw; for sampling-based selections the distribution handed to choice(p=...) is the recorded row. "
+        "a mask of earlier picks on the returned row is matched by an exclusion in the operand the selection reads; utilities scattered through the mapping are NaN elsewhere; the exclusion reaches the selection on every path and zero-mass masks are only scaled before a draw; for sampling-based selections the distribution handed to choice(p=...) is the recorded row; masks of earlier picks precede the step's selection; rand_argmax breaks ties among exact maxima only. "
         "The numerical arg-max relation and the sampling mass as numbers are not decided.",
         "Structured control flow only; the arg-max relation is the contract of rand_argmax (C18).",
         "DESIGN.md section 3 C02",
@@ -38,7 +38,7 @@ CLAIMS = {
         "interprocedural effect analysis (abstract interpretation over the AST) + structural dominance of save/restore pairs",
         "Decides the purity clause: every write to state reachable from self on every path of query/query_by_utility "
         "(13 stream strategies, 7 concrete budget managers, callees inlined) is either an idempotent re-derivation or is "
-        "bracketed by a dominating copy-save and a post-dominating restore (RNG: get_state/set_state). All paths, all inputs; "
+        "bracketed by a dominating copy-save and a post-dominating restore (RNG: get_state/set_state; also tuple-packed saves). Each entity is analysed in three views of the lazily created state (hasattr unknown / fresh object / everything exists), the worst verdict counts. All paths, all inputs; "
         "numerical equality of repeated results is not decided.",
         "Trusts the alias/in-place tables for numpy/sklearn calls; exception paths between save and restore are not modelled.",
         "DESIGN.md section 3 C03",
@@ -48,7 +48,7 @@ CLAIMS = {
         "Decides the four structural premises of the bound for the 6 budget-enforcing managers and the 2 baseline strategies: every grant is reachable/true only "
         "under the budget guard of its iteration (through guard variables, list-tail reads, conditional expressions; only allow_exceeding_budget may disjoin); the guard "
         "compares the running spent-estimate with budget_ in the admitting direction; the estimate is advanced from its previous value and the grant indicator on every path; "
-        "update commits every seeding attribute from queried_indices/candidates, with the same per-candidate transition the simulation applies (syntactic agreement after normalisation). The numerical bound itself follows by arithmetic that is not in the code and is not decided.",
+        "update commits every seeding attribute from queried_indices/candidates, with the same per-candidate transition the simulation applies (syntactic agreement after normalisation, including the conditions under which an indicator-guarded transition runs); budget_ is re-derived on every validation. The numerical bound itself follows by arithmetic that is not in the code and is not decided.",
         "Strict vs non-strict comparison is not judged; BalancedIncrementalQuantileFilter is excluded (not budget-enforcing).",
         "DESIGN.md section 3 C04",
     ),
@@ -63,14 +63,14 @@ CLAIMS = {
     "C08": (
         "abstract index-space typing (XROW / CAND / MASK(m)) of arrays and positions with one-level callee summaries",
         "Decides index-space agreement where both sides are known (subscripts and (array, position) pairs passed to project helpers) and that the raw candidates parameter is used only for representation tests "
-        "after _transform_candidates; a per-candidate scoring loop does not read the set of all candidates; the argument in the role of the given samples does not depend on the candidate representation. Restriction invariance and permutation equivariance of the numbers are not decided.",
+        "after _transform_candidates; a per-candidate scoring loop does not read the set of all candidates; the argument in the role of the given samples does not depend on the candidate representation; the number of candidates is never an operand of a score; reductions over NaN-marked arrays are NaN-aware; reads of the current model of the index wrapper precede every hypothetical refit. Restriction invariance and permutation equivariance of the numbers are not decided.",
         "Spaces are inferred only from the idioms listed in the checker; unknown never fires (few pairs are typed on today's tree).",
         "DESIGN.md section 3 C08",
     ),
     "C09": (
         "who-passes-the-sentinel rule over all label-partitioning call sites, constructions and label fillers",
         "Decides: every call of a label-partitioning/aggregating utility on something other than model predictions binds missing_label explicitly (literal -1 only on encoder output); "
-        "label fillers concatenated to y are not NaN literals; project models constructed inside strategies receive missing_label. Equality of outputs under re-encoding is not decided.",
+        "label fillers concatenated to y are not NaN literals; project models constructed inside strategies receive missing_label; encoder output is never partitioned with the raw sentinel; predict decodes class indices on every path. Equality of outputs under re-encoding is not decided.",
         "Calls on model predictions and pure validators are outside the rule.",
         "DESIGN.md section 3 C09",
     ),
@@ -78,7 +78,7 @@ CLAIMS = {
         "must-append path analysis, loop-carried-definition check of update guards, sibling agreement of simulation vs commit transition operators, RNG mirror via effect analysis",
         "Decides necessary structural conditions: lists handed to budget_manager_.update with the caller's indices get exactly one append per candidate on every path; "
         "per-instance guards in update read a spent-estimate redefined in the same loop; the set of normalised update operators (with indicator polarity) applied to each simulated "
-        "state variable equals the set committed in update; returned indices are append-only enumerate counters / np.where(mask)[0]; update advances the generator the simulation drew from. "
+        "state variable equals the set committed in update; returned indices are append-only enumerate counters / np.where(mask)[0]; update advances the generator the simulation drew from; the indicator by which the simulated estimate advances is the grant condition; guarded transitions run under the same conditions in simulation and commit. "
         "Chunking invariance as an equality of whole runs is not decided.",
         "RandomVariableUncertaintyBudgetManager is outside the chunking-invariance claim and not judged by R10.2.",
         "DESIGN.md section 3 C10",
@@ -86,7 +86,7 @@ CLAIMS = {
     "C15": (
         "structural rules on predict/sample_y, MRO resolution, definite assignment of fallback attributes",
         "Decides: predict binds one predict_target_distribution result and returns its mean/std/entropy under the matching flags; every concrete probabilistic regressor resolves predict to that implementation; "
-        "sample_y draws (n_samples, len(X)) and transposes, forwarding random_state; the NotFittedError fallbacks are built from _label_mean/_label_std which _fit defines on all paths with defaults 0/1.",
+        "sample_y draws (n_samples, len(X)) and transposes, forwarding random_state; the NotFittedError fallbacks are built (as float arrays) from _label_mean/_label_std which _fit defines on all paths with defaults 0/1 from the labeled rows; the seed is never judged by truthiness; the all-zero-weights guard of the kernel regressors reads the labeled weights.",
         "scipy.stats frozen distributions are coherent; numbers are not decided.",
         "DESIGN.md section 3 C15",
     ),
@@ -100,7 +100,7 @@ CLAIMS = {
     "C17": (
         "path-sensitive must-write analysis with value-set facts; dominance of the zeroing store; structural rules on majority_vote",
         "Decides: ext_confusion_matrix stores its output slice on every feasible path of the per-annotator loop (value set of `normalize` from the validating test); "
-        "compute_vote_vectors zeroes the bincount weights at the missing-label mask by the last dominating store and pairs positions and weights in C order; majority_vote fills with the sentinel, writes only under the "
+        "compute_vote_vectors zeroes the bincount weights at the missing-label mask by the last dominating store and pairs positions and weights in C order; the utilities never write into their arguments; the rows of annotator a are filtered by the mask of its own column; majority_vote fills with the sentinel, writes only under the "
         "has-a-label mask and decodes rand_argmax over the vote matrix. Equality with the counting specification as numbers is not decided.",
         "np.bincount and sklearn's confusion_matrix are trusted to count.",
         "DESIGN.md section 3 C17",
@@ -118,7 +118,7 @@ CLAIMS = {
         "RNG provenance analysis (taint over an interprocedural abstract interpretation with constant propagation) + syntactic scan for global draws",
         "Decides the provenance clause: every random draw reachable from any public method of any estimator class or public helper "
         "derives from self.random_state(_)/a random_state argument/a literal seed and never from numpy's global generator "
-        "(random_state=None or omitted on the call path, seedless external estimators), pool queries do not consume a caller-supplied RandomState (own draws or external estimators handed the raw object), and stream strategies / budget managers keep evolving state out of objects held by constructor parameters (twins). "
+        "(random_state=None or omitted on the call path, seedless external estimators), pool queries do not consume a caller-supplied RandomState (own draws or external estimators handed the raw object), and stream strategies / budget managers keep evolving state out of objects held by constructor parameters (twins); a keyword reaching a constructor through **dict on some paths only is treated as possibly defaulted; every fit re-derives random_state_. "
         "Bit-wise equality of outputs and determinism of third-party numerical code are not decided.",
         "Table of external estimators that draw in fit; random_state=None chosen by the user is outside the premise.",
         "DESIGN.md section 3 C06",
@@ -133,7 +133,7 @@ CLAIMS = {
     ),
     "C12": (
         "path-sensitive mask-flow analysis (which per-sample arrays are restricted to labeled rows) over the fit functions of the supervised wrappers",
-        "Decides: every per-sample array reaching the wrapped estimator's fit/partial_fit, stored as training data, or passed to a call together with a masked array is subscripted by the labeled mask on every path, likewise statistics kept on self and branch conditions (raise/fallback decisions) computed from such arrays; "
+        "Decides: every per-sample array reaching the wrapped estimator's fit/partial_fit, stored as training data, or passed to a call together with a masked array is subscripted by the labeled mask on every path, likewise statistics kept on self and branch conditions (raise/fallback decisions) computed from such arrays; the mask uses the configured sentinel; fit reads no fitted attribute it has not stored in the same call and never writes into X, y, sample_weight; "
         "PWC/MixtureModel obtain label statistics only through compute_vote_vectors with the encoder sentinel. Equality of the two fits as numbers is not decided.",
         "The wrapped estimator's fit depends only on the arrays it is given.",
         "DESIGN.md section 3 C12",
@@ -141,7 +141,7 @@ CLAIMS = {
     "C13": (
         "interprocedural alias/ownership analysis over every public method of every estimator class (class-wide heap)",
         "Decides the parameters-are-never-rewritten clause: in every public method except __init__/set_params of all estimator classes, "
-        "no store to or in-place mutation of a constructor parameter, directly, through an alias created in another method, or in a callee. "
+        "no store to or in-place mutation of a constructor parameter, directly, through an alias created in another method, or in a callee; every fitted attribute read in fit was stored in the same call; on the partial_fit path the fitted model is re-created only when it does not exist; sliding-window deques keep maxlen. "
         "Equality of a refitted object with a fresh clone as numbers is not decided.",
         "Aliasing is under-approximated; constructor parameters = attributes stored by any __init__ along the MRO.",
         "DESIGN.md section 3 C13",
@@ -149,7 +149,7 @@ CLAIMS = {
     "C19": (
         "delegation-name agreement, co-assignment groups via must/may attribute-store path analysis, copy discipline, sibling diff",
         "Decides: predict/predict_proba/predict_freq delegate to the method of their own name on every path; the current and base training triples are stored all-or-none on every path; base state is always copied; "
-        "the three predict* siblings are identical up to the delegated name with the NaN guard dominating the precomputed prediction; the kernel comes from the wrapped classifier's metric. Equality with a retrained reference is not decided.",
+        "the three predict* siblings are identical up to the delegated name with the NaN guard dominating the precomputed prediction; the kernel comes from the wrapped classifier's metric; the twin classifier is a clone (or rebuilt with every constructor parameter); None-guards test the value they pass; the unique-sample selector works on index values. Equality with a retrained reference is not decided.",
         "-",
         "DESIGN.md section 3 C19",
     ),
